@@ -25,3 +25,9 @@ def run(ctx):
     R.check_halfopen(ctx, "C04.HALFOPEN")
     R.check_fixed(ctx, "C04.FIXED")
     R.check_parallel_eviction(ctx, "C04.CACHE")
+
+    # ---------------------------------------------------------------- C04.ARGS
+    from ..rules_common import check_call_arguments
+    check_call_arguments(ctx, "C04.ARGS", "C04")
+
+
